@@ -38,18 +38,20 @@ class Transport:
 
     def send(self, message):
         """Write a message to the gateway."""
-        if not message or not self.protocol or not self.protocol.transport:
+        # The connection can be lost or closed by another thread at any time.
+        # Use one snapshot of protocol and transport for the whole call.
+        protocol = self.protocol
+        transport = protocol.transport if protocol else None
+        if not message or not transport:
             return
         if not self.can_log:
             _LOGGER.debug("Sending %s", message.strip())
         try:
-            self.protocol.transport.write(message.encode())
+            transport.write(message.encode())
         except OSError as exc:
-            _LOGGER.error(
-                "Failed writing to transport %s: %s", self.protocol.transport, exc
-            )
-            self.protocol.transport.close()
-            self.protocol.conn_lost_callback()
+            _LOGGER.error("Failed writing to transport %s: %s", transport, exc)
+            transport.close()
+            protocol.conn_lost_callback()
 
 
 class SyncTransport(Transport):
